@@ -42,8 +42,8 @@ TEXT = {
     },
     "C10": {
         "level": "Machine-checked: for every event sequence, every streaming connection's sent output followed by its unsent items equals the reference (items in order with the service's continues flags); the hand-back of a finished stream and the "
-                 "drop of an unwritable subscription preserve every other connection's invariant; a ready call on another connection is served before any stream item. Differential run with streaming calls of 0..4 items under four flag patterns of the test service (conventional, all continuing, alternating, unflagged), pipelined calls before/behind, write failures.",
-        "design_ref": "DESIGN.md §5 C10", "note": RX_NOTE + " Same server model as C08; stream items always ready (stream::iter).",
+                 "drop of an unwritable subscription preserve every other connection's invariant; a ready call on another connection is served before any stream item; readiness of stream items is an environment event (Ev.produce): a stream with nothing ready is pending, polling it changes nothing (C10_pending_stream_untouched), in every idle state every other well-behaved connection has been answered in full while streams stay open and every result a stream had ready has been forwarded (C10_open_stream_blocks_nobody), and among ready streams the one served is SelectAll's pick after the previous winner (C10_stream_rotation). Differential run with streaming calls of 0..4 items under four flag patterns of the test service (conventional, all continuing, alternating, unflagged), pipelined calls before/behind, write failures; in every second case the service's stream type is Pending until `k` events grant results, and a third of those end with streams still open and silent.",
+        "design_ref": "DESIGN.md §5 C10, §11.9", "note": RX_NOTE + " Same server model as C08; stream readiness is an environment event in model and harness.",
         "technique": "Lean 4 proof (same global invariant, stream bookkeeping `out ++ pending = reference`); model-vs-implementation correspondence run",
     },
     "C18": {
